@@ -131,6 +131,11 @@ def edit_finding(d):
         return "C17-F04"
     if rule == "continuation-indent" and ctx in ("subproc", "python") and hash_before_continuation(d):
         return "C17-F17"
+    if rule.endswith(":strip-trailing-blank") and rule.startswith(("in-STRING", "in-FSTRING_MIDDLE")) and ctx in ("macro-alias", "macro-func"):
+        return "C17-F01"            # the multi-line literal is part of raw macro text: the same line-by-line right-strip
+    if ctx in ("macro-alias", "macro-func") and shape == "remove" and d["removed"].strip(" \t") == "" and d["follows"] in ("\n", "") \
+            and "\n" not in d["removed"] and nxt is not None and nxt.fdepth and nxt.type in (A._mods().FSTRING_MIDDLE, A._mods().FSTRING_END):
+        return "C17-F01"            # ... seen as a gap, because the token positions of multi-line f-string parts are unreliable
     if ctx == "macro-alias":
         t = nxt if (nxt is not None and nxt.macro == "alias") else (d["inside"] if d["inside"] is not None else prev)
         if t is not None and t.macro == "alias" and not t.macro_head_first:
